@@ -25,6 +25,8 @@ KEY = "linear_scoring:linear_scoring"
 
 
 def run(P, R, tier):
+    from ..engines import carry as _carry
+    _carry.check_blocked_loops(P, R, ["linear_scoring"])
     from ..engines import dimrun
     n, rets = dimrun.route(P, R, ["ls.norm", "ls.raw", "ls.machines"], rules=["DIM.", "EXT."], where_prefix=["linear_scoring:"])
     R.floor("DIM/EXT obligations (linear scoring)", n, 6)
@@ -336,3 +338,4 @@ def run(P, R, tier):
 
 EXPLANATION += ' Also: (LINEAR) no selective overwrite or non-linear operation on values the score is computed from, other than the zero-frame guard; (NORM.models-2d) a single (C, D) model becomes one row; the MAP -> prior replacement happens exactly for MAP machines; the frame guard is decided from which np.where arm is taken for empty statistics, however mask and quotient are spelled; helpers that compute the two factors are looked into.'
 EXPLANATION += ' (LINEAR.ops) calls that only look at array metadata are not value operations; (DIM.ARMS) both arms of a run-time switch give a value the same dimension.'
+EXPLANATION += " (BLOCK.carried) a loop that keeps one result per block computes it from that block's values and loop-invariant ones only: no local in its value cone may still hold what an earlier iteration assigned."
